@@ -425,7 +425,7 @@ where
             .parse()
             .map_err(|mut errs| errs.drain(..).map(LexBuildError::from).collect::<Vec<_>>())?;
         let flags = LexFlags::try_from(&mut header).map_err(|e| vec![e.into()])?;
-        LexParser::<LexerTypesT>::new_with_lex_flags(s[pos..].to_string(), flags.clone()).map(|p| {
+        LexParser::<LexerTypesT>::new_with_lex_flags(s.to_string(), pos, flags.clone()).map(|p| {
             LRNonStreamingLexerDef {
                 rules: p.rules,
                 start_states: p.start_states,
@@ -542,7 +542,7 @@ where
         lex_flags: LexFlags,
     ) -> LexBuildResult<LRNonStreamingLexerDef<LexerTypesT>> {
         let (_, pos) = GrmtoolsSectionParser::new(s, false).parse().unwrap();
-        LexParser::<LexerTypesT>::new_with_lex_flags(s[pos..].to_string(), lex_flags.clone()).map(
+        LexParser::<LexerTypesT>::new_with_lex_flags(s.to_string(), pos, lex_flags.clone()).map(
             |p| LRNonStreamingLexerDef {
                 rules: p.rules,
                 start_states: p.start_states,
